@@ -26,7 +26,7 @@ Shapes(d) == IF d = 0 THEN {<<"m">>}
              ELSE LET S == Shapes(d - 1) IN
                   {<<"m">>} \cup {<<"if", a>> : a \in S} \cup {<<"ife", a, b>> : a \in S, b \in S}
                   \cup {<<"wh", a>> : a \in S} \cup {<<"rep", n, a>> : n \in {1, 2, 3}, a \in S}
-                  \cup {<<"ex", a>> : a \in S} \cup {<<"exl", a>> : a \in S} \cup {<<"exr", a>> : a \in S}
+                  \cup {<<"ex", a>> : a \in S} \cup {<<"exl", a>> : a \in S} \cup {<<"exr", a>> : a \in S} \cup {<<"exe", a>> : a \in S}
                   \cup {<<"ifs", a>> : a \in S} \cup {<<"ifx", a>> : a \in S}
 
 \* Build(shape, prefix) = [body, procs] ; procs = set of <<slot, locals, body>>
@@ -61,6 +61,12 @@ Build(sh, pf) ==
          [body |-> <<m, [k |-> "exec", p |-> pf]>>,
           procs |-> a.procs \cup {<<pf, 2, <<[k |-> "repeat", n |-> 1, b |-> <<Mark(1000 + pf), Ins([I0("loc_store") EXCEPT !.p = 1])>>]>> \o a.body
                                             \o <<[k |-> "repeat", n |-> 1, b |-> <<Mark(1), [k |-> "if", t |-> <<Ins([I0("loc_load") EXCEPT !.p = 1])>>, e |-> <<>>]>>]>>>>}]
+    \* procedure with locals whose body ENDS with an if / else (both branches written): whichever branch runs, the frame
+    \* must be released before the caller continues
+    [] sh[1] = "exe" -> LET a == Build(sh[2], 4 * pf + 1) IN
+         [body |-> <<m, [k |-> "exec", p |-> pf]>>,
+          procs |-> a.procs \cup {<<pf, 3, <<Mark(1000 + pf), Ins([I0("loc_store") EXCEPT !.p = 2]), Decide,
+                                            [k |-> "if", t |-> a.body, e |-> <<Mark(2000 + pf), Ins([I0("loc_load") EXCEPT !.p = 2])>>]>>>>}]
 
 \* procedure table as a function slot -> [locals, body]
 ProcFun(ps) == [s \in {p[1] : p \in ps} |-> LET p == CHOOSE p \in ps : p[1] = s IN [locals |-> p[2], body |-> p[3]]]
@@ -70,10 +76,10 @@ Nx(s, k) == (s * 75 + 74 + 7 * k) % 65537
 RECURSIVE RShape(_, _)
 RShape(d, s) ==
   IF d = 0 THEN <<"m">>
-  ELSE LET c == s % 11  a == RShape(d - 1, Nx(s, 1))  b == RShape(d - 1, Nx(s, 2)) IN
+  ELSE LET c == s % 12  a == RShape(d - 1, Nx(s, 1))  b == RShape(d - 1, Nx(s, 2)) IN
        CASE c = 0 -> <<"m">> [] c = 1 -> <<"if", a>> [] c = 2 -> <<"ife", a, b>> [] c = 3 -> <<"wh", a>>
          [] c = 4 -> <<"rep", 1 + (Nx(s, 3) % 3), a>> [] c = 5 -> <<"ex", a>> [] c = 6 -> <<"exl", a>>
-         [] c = 7 -> <<"ifs", a>> [] c = 8 -> <<"ifx", a>> [] c = 9 -> <<"ife", b, a>> [] c = 10 -> <<"exr", a>>
+         [] c = 7 -> <<"ifs", a>> [] c = 8 -> <<"ifx", a>> [] c = 9 -> <<"ife", b, a>> [] c = 10 -> <<"exr", a>> [] c = 11 -> <<"exe", a>>
 
 Tapes == [1 .. L -> {F0, F1, F2}]
 TapeSeq(t) == [i \in 1 .. L |-> t[i]]
